@@ -6,6 +6,7 @@ use super::common::*;
 use crate::case::*;
 use crate::engine::*;
 use crate::gen::{self, schema as gs, G};
+use crate::ingest::Outcome;
 use crate::ingest;
 use serde_json::{json, Map, Value};
 use std::collections::{BTreeMap, BTreeSet};
@@ -55,7 +56,41 @@ fn subset_defs(doc: &Value, names: &[String]) -> Value {
     Value::Object(m)
 }
 
+/// Two independent root documents (titled roots, disjoint definition names); the second may
+/// refer to its own root (`#`) by reference and inside a conjunction.
+fn gen_two_roots(g: &mut G) -> Value {
+    let mut docs = vec![];
+    for (i, tag) in ["Aa", "Bb"].iter().enumerate() {
+        let mut cfg = gs::Cfg::faithful();
+        cfg.max_defs = 2;
+        let d = gs::document(g, &cfg);
+        // disjoint definition names
+        let mut text = d.to_string();
+        for n in gs::def_names(&d) {
+            text = text.replace(&format!("\"#/definitions/{n}\""), &format!("\"#/definitions/{tag}{n}\""));
+        }
+        let d: Value = serde_json::from_str(&text).unwrap();
+        let mut defs = Map::new();
+        for (k, v) in d["definitions"].as_object().cloned().unwrap_or_default() {
+            defs.insert(format!("{tag}{k}"), v);
+        }
+        let title = format!("Root{tag}");
+        let mut root = json!({"title": title, "type": "object", "properties": {format!("field_{i}"): {"type": "string"}, "count": {"type": "integer"}}, "required": ["count"]});
+        if i == 1 || g.chance(1, 3) {
+            // self references of the root: plain, and looked through by a conjunction
+            root["properties"]["children"] = json!({"type": "array", "items": {"$ref": "#"}});
+            defs.insert(format!("{tag}Labeled"), json!({"allOf": [{"$ref": "#"}, {"type": "object", "properties": {"label": {"type": "string"}}, "required": ["label"]}]}));
+        }
+        root["definitions"] = Value::Object(defs);
+        docs.push(root);
+    }
+    json!({"settings": Settings::default(), "history": [], "root_docs": docs, "features": ["two-root-documents"]})
+}
+
 pub fn gen_c16_case(g: &mut G) -> Value {
+    if g.chance(1, 6) {
+        return gen_two_roots(g);
+    }
     let mut cfg = gs::Cfg::faithful();
     cfg.max_defs = 6;
     let mut doc = gs::document(g, &cfg);
@@ -230,6 +265,46 @@ impl Property for C16 {
         };
         let mut unit = Unit::default();
         let Ok(ts) = ingest::guarded(|| ingest::build_settings(&settings)).unwrap_or_else(|p| Err(p)) else { return invalid_unit("settings rejected".into()) };
+        if let Some(docs) = c.get("root_docs").and_then(|d| d.as_array()) {
+            // independent root documents commute: either order gives the same definitions
+            if docs.len() != 2 {
+                return invalid_unit("root_docs".into());
+            }
+            unit.nontrivial = true;
+            unit.classes.push("two-root-documents".into());
+            let run = |order: [usize; 2]| -> Result<BTreeMap<String, String>, (Outcome, String, Option<Violation>)> {
+                let mut space = TypeSpace::new(&ts);
+                for i in order {
+                    if let Err((o, m)) = ingest::apply_step(&mut space, &Step::Root { doc: docs[i].clone() }) {
+                        return Err((o, m, None));
+                    }
+                }
+                item_map(&space).map_err(|v| (Outcome::Ok, String::new(), Some(v)))
+            };
+            match (run([0, 1]), run([1, 0])) {
+                (Ok(a), Ok(b)) => {
+                    if a != b {
+                        let ka: BTreeSet<&String> = a.keys().collect();
+                        let kb: BTreeSet<&String> = b.keys().collect();
+                        let detail = if ka != kb {
+                            format!("definitions differ: only in order [0,1] {:?}, only in order [1,0] {:?}", ka.difference(&kb).collect::<Vec<_>>(), kb.difference(&ka).collect::<Vec<_>>())
+                        } else {
+                            let d = a.iter().find(|(k, v)| b.get(*k) != Some(*v)).map(|(k, _)| k.clone()).unwrap_or_default();
+                            format!("item {d} differs between the two orders of the root documents")
+                        };
+                        unit.violations.push(Violation::new("order-changes-definitions", detail));
+                    }
+                }
+                (Err((o, m, v)), _) | (_, Err((o, m, v))) => match v {
+                    Some(v) => unit.violations.push(v),
+                    None => {
+                        unit.outcome = o;
+                        unit.message = m;
+                    }
+                },
+            }
+            return unit;
+        }
         let mut space = TypeSpace::new(&ts);
         let mut recorded: BTreeMap<String, (TypeId, Value)> = BTreeMap::new();
         let mut step_ident: Vec<Option<String>> = vec![];
@@ -384,6 +459,15 @@ impl Property for C16 {
         unit
     }
     fn in_domain(&self, c: &Value) -> bool {
+        if let Some(docs) = c.get("root_docs").and_then(|d| d.as_array()) {
+            // two titled roots with disjoint definition names
+            let names = |d: &Value| -> BTreeSet<String> { d.get("definitions").and_then(|x| x.as_object()).map(|o| o.keys().cloned().collect()).unwrap_or_default() };
+            return docs.len() == 2
+                && docs.iter().all(|d| d.get("title").and_then(|t| t.as_str()).is_some() && d.get("type") == Some(&json!("object")))
+                && docs[0]["title"] != docs[1]["title"]
+                && names(&docs[0]).is_disjoint(&names(&docs[1]))
+                && docs.iter().all(|d| !names(d).contains(d["title"].as_str().unwrap_or("")));
+        }
         // every refs batch must be a union of connected components of all_defs
         let Some(hist) = c["history"].as_array() else { return false };
         let doc = json!({"definitions": c["all_defs"]});
